@@ -377,6 +377,46 @@ def run(ctx):
                 g, _ = cc2.guarded(b, lambda fc: fc[0] == "is" and fc[1] == "Some" and any(x[0] == "call" and x[1] == "resolved::handle_raw_message" for x in A.walk(fc[2])))
                 ok = g
             ctx.check(ok, "C09.7", "udp:one-reply-queued", "reply.send(..) once, only if handle_raw_message returned Some", "the UDP task can queue several replies / replies to nothing", body.loc())
+    # panic sites of the serving tasks (outside what C08.8 / C03 / C17 already cover)
+    from .. import panics as P
+    from . import panicjust
+    state = {}
+    covered = {f.key for f in P.reach_set(prog, ["dns_resolver::resolve"])}
+    roots = ["resolved::listen_udp_task", "resolved::listen_tcp_task", "resolved::handle_raw_message", "resolved::prune_cache_task", "resolved::reload_task"]
+    sfns = [f for f in P.reach_set(prog, roots) if not f.derived and f.key not in covered]
+    ctx.floor("C09.9", "server-side functions examined for panic sites", len(sfns), 90)
+    base = panicjust.make(prog, state)
+
+    def sjust(f, res, pv, b, kind, t):
+        r = base(f, res, pv, b, kind, t)
+        if r is not None and r[0]:
+            return r
+        # tokio::select! bookkeeping (branch-disabled mask, random start index, the "all branches disabled" panic)
+        if (t.get("tmacro") or t.get("macro") or "").startswith("tokio::select") and f.root_key == "resolved::listen_udp_task":
+            body = prog.body_of("resolved::listen_udp_task")
+            tx_clones = [bb for g in prog.family("resolved::listen_udp_task") for bb, tt in g.calls() if (tt.get("callee") or "").endswith("Clone::clone") and "mpsc::Sender" in (tt.get("inst") or "")]
+            chans = [bb for bb, tt in body.calls() if (tt.get("callee") or "").endswith("mpsc::channel")]
+            if len(chans) == 1 and tx_clones:
+                return True, "tokio::select! internals over two branches; `rx.recv()` cannot yield None (the loop owns `tx` and only hands out clones), so the all-disabled arm is unreachable"
+            return False, "select! may run with every branch disabled"
+        # &buf[..size]: size is what recv_from reported for that very buffer
+        if f.key == "resolved::listen_udp_task::{closure#0}" and kind == "call:index":
+            e = res.call_expr(t, b)
+            rng = A.peel(e[2][1])
+            if rng[0] == "agg" and rng[1] == "std::ops::RangeTo":
+                end = dict(rng[3])["end"]
+                rf = [x for x in A.walk(end) if x[0] == "call" and x[1].endswith("UdpSocket::recv_from")]
+                if rf and A.same(rf[0][2][1], e[2][0]) or (rf and A.strip_refs(A.peel(rf[0][2][1])) == A.strip_refs(A.peel(e[2][0]))):
+                    return True, "size is the byte count recv_from reported for this same buffer (<= buf.len() by its contract)"
+            return False, "datagram slice end is not recv_from's count for the sliced buffer"
+        return r
+    d = P.Discharger(ctx, "C09.9", prog, sjust)
+    before = len(ctx.violations)
+    counts = d.run(sfns)
+    bad_fns = {v["site"].split(":")[0] for v in ctx.violations[before:]}
+    panicjust.settle_mutex(ctx, "C09.9", prog, state, [f.key for f in sfns if A.short(f.key) in bad_fns])
+    ctx.note("C09.9 site kinds: %s" % counts)
+
     exits = sorted({f.root_key for f, _, _ in A.who_calls(prog, "std::process::exit")})
     ctx.check(set(exits) <= {"resolved::main", "resolved::reload_task", "dnsq::main", "htoh::main", "htoz::main", "ztoh::main", "ztoz::main"}, "C09.9", "who-calls(process::exit)",
               "process::exit only in main / reload_task start-up / the CLI tools", "process::exit called from %s" % exits)
